@@ -75,3 +75,10 @@ split = Contract("C07.strops.split[single separator]", target=_split, setup=_set
                            ("virtual separator not forced", "mask[-1] = True", "mask[-1] = mask[-1]")])
 
 CONTRACTS = [split]
+
+
+# --- comparison with an array of another alphabet encoding: the operand is first re-targeted by as_encoded_array (encoded_array.py
+# _parse_ufunc_inputs); the re-target rule is the contract proved for C06, instantiated here because a wrong rule silently changes what
+# `a == b` compares (the text of b must stay the same).
+from contracts.c06 import mk_retarget      # noqa: E402
+CONTRACTS.append(mk_retarget("C07"))
